@@ -846,9 +846,19 @@ class DFTTransformer(BilateralForwardTransformer):
             bb = ref[1].coeff(n, 1)
             cc = ref[1].coeff(n, 0)
             result = self.termXq(expr, n, k, q, lower, upper)
-            result.subs(q, q * lam**bb)
-            # No special cases remain
-            result.rm_cases()
+            base = lam**bb
+            result.subs(q, q * base)
+            # If base = exp(j * 2 * pi * k0 / N) for an integer k0
+            # then base * q = 1 at k = k0 so the special cases are
+            # shifted by k0 (as for exp(j * a * n)), otherwise no
+            # special cases remain.
+            k0 = None
+            if result.has_special and abs(base) == 1:
+                k0 = sym.simplify(sym.arg(base) * self.N / 2 / pi)
+            if k0 is not None and k0.is_integer:
+                result.shift_k(k0)
+            else:
+                result.rm_cases()
             result.multiply(const * lam**cc)
             return result
 
